@@ -306,9 +306,25 @@ def this_package(rep):
     rep.bounded.append(dict(kind='beartype_this_package() called from real on-disk modules (non-__init__, __init__, conflicting) (bounded stand-in, NOT counted as proved)', scenarios=4, failing=int(p.returncode == 1)))
     rep.functions.append('beartype/_util/func/utilfuncframe.py:get_frame_package_name_or_none (mode F; leading assert dropped)')
 
+def applied_configuration(rep):
+    """"the configuration applied is that of the nearest registered ancestor": the loader hands the AST transformer and the injected decorators the
+    configuration get_package_conf_or_none() returned for THIS import - it (re)writes the per-module entry unconditionally (a first-writer-wins entry
+    would keep serving the configuration of an earlier import of the same module name after the registrations changed).  The obligation is the one
+    C16 states on the real get_code (function mode), reported here for the configuration clause of C06."""
+    from props import c16
+    sub = report.Report('C16', 'quick', 0, 'other', 'sub')
+    c16.run(sub)
+    n = 0
+    for o in sub.obls:
+        if 'transforms_under_the_hooking_conf' not in o['name']: continue
+        n += 1; rep.obls.append(dict(o, name=o['name'].replace('C16.get_code.post.transforms_under_the_hooking_conf', 'C06.import.applies_the_configuration_found_for_the_module')))
+    for e in sub.errors: rep.error('C06 applied_configuration: ' + e)
+    if not n: rep.error('C06 applied_configuration: no obligation')
+    rep.functions.append('beartype/claw/_importlib/_clawimpfileloader.py:BeartypeSourceFileLoader.get_code (mode F: the configuration handed to the transformer; shared with C16)')
+
 def main(tier, seed):
     rep = report.Report('C06', tier, seed, 'proof', f'./check C06 --tier {tier}')
-    for fn in (lookup, registration, fresh_interpreter, this_package, histories):
+    for fn in (lookup, registration, fresh_interpreter, this_package, applied_configuration, histories):
         try: fn(rep) if fn is not histories else fn(rep, tier, seed)
         except Exception: rep.error(f'C06 {fn.__name__}: ' + traceback.format_exc()[-2500:])
     files = ['beartype/claw/_package/clawpkgtrie.py', 'beartype/claw/_package/clawpkgmain.py', 'beartype/claw/_package/clawpkgcontext.py', 'beartype/claw/_package/_clawpkgmake.py', 'beartype/claw/_clawstate.py']
